@@ -9,6 +9,7 @@
   unit `I` are parameters.  The driver runs the same definitions at `GRat` (Gaussian rationals).
 -/
 import WB.Model.IO
+import WB.Model.C15
 namespace WB.C27
 
 /-! ### Gaussian rationals (exact complex arithmetic for the driver) -/
@@ -87,6 +88,33 @@ end
 def selRat (E : Nat → Rat) (thr : Rat) (n l : Nat) : Bool :=
   decide (E n - E l < thr) && decide (E l - E n < thr)
 
+/-! ### the band groups of a Fermi-sea calculator (`Data_K.get_bands_in_range_groups_ik(..., sea=True)`) -/
+
+/-- `get_bands_below_range(emin, E)`: `np.where(E < emin)[0][-1] + 1`, and 0 when no band lies below `emin` -/
+def belowRange (E : Nat → Rat) (emin : Rat) (n : Nat) : Nat :=
+  match (List.range n).reverse.find? (fun i => decide (E i < emin)) with
+  | some i => i + 1
+  | none => 0
+
+/-- the keys of the dictionary returned with `sea=True`: the groups in the Fermi-level range `[emin, emax]`
+    (`get_bands_in_range`) plus the lumped always-occupied block `(0, bandmax)`, where
+    `bandmax = min(get_bands_below_range(emin), bands_in_range[0][0])` — the clamp keeps the lumped block
+    disjoint from a group that straddles `emin` -/
+def seaGroups (E : Nat → Rat) (th : Rat) (n : Nat) (kr : Bool) (emin emax : Rat) : List (Nat × Nat) :=
+  let inr := WB.C15.bandsInRange E th n kr emin emax
+  let below := belowRange E emin n
+  let bandmax := match inr with
+    | [] => below
+    | ab :: _ => min below ab.1
+  (if bandmax > 0 then [(0, bandmax)] else []) ++ inr
+
+/-- the same WITHOUT the clamp (`bandmax` = number of bands below `emin`): kept to show that the clamp is what
+    makes the groups a partition (`Props/C27.lean: sea_groups_without_clamp_overlap`) -/
+def seaGroupsNoClamp (E : Nat → Rat) (th : Rat) (n : Nat) (kr : Bool) (emin emax : Rat) : List (Nat × Nat) :=
+  let inr := WB.C15.bandsInRange E th n kr emin emax
+  let bandmax := belowRange E emin n
+  (if bandmax > 0 then [(0, bandmax)] else []) ++ inr
+
 /-! ### driver -/
 open WB.IO
 
@@ -141,6 +169,14 @@ def handle : List String → String
       let D := DH (mkV re im) (fun i => GRat.ofRat (E i)) (selRat E t)
       showListWith showG ";" ((List.range 3).map fun c =>
         omegaBlocks GRat.conj GRat.I D l.length (b.zip b.tail) c)
+    | _, _, _, _, _ => "bad-op"
+  -- sea E thr kramers emin emax -> groups of get_bands_in_range_groups_ik(sea=True), lumped block first
+  | ["sea", e, th, kr, emin, emax] =>
+    match parseRats? e, parseRat? th, parseBool? kr, parseRat? emin, parseRat? emax with
+    | some l, some t, some k, some a, some b =>
+      if l.isEmpty then "bad-op" else
+        showListWith (fun ab => toString ab.1 ++ "," ++ toString ab.2) ";"
+          (seaGroups (fun i => l.getD i 0) t l.length k a b)
     | _, _, _, _, _ => "bad-op"
   | _ => "bad-op"
 
